@@ -83,7 +83,7 @@ import sympy
 form = %(form)r
 ops = %(ops)s
 mult = %(mult)s
-Ks = sympy.symbols("K0:%%d" %% len(ops), positive=True)
+Ks = sympy.symbols("K0:%%d" %% (len(ops) + 1), positive=True)
 es = [Equilibrium(dict(r), dict(p), K) for (r, p), K in zip(ops, Ks)]
 n, m = mult
 try:
@@ -91,6 +91,10 @@ try:
     elif form == "n*e1-e2": res = n * es[0] - es[1]; comb = [n, -1]
     elif form == "e1*n": res = es[0] * n; comb = [n]
     elif form == "-e1": res = -es[0]; comb = [-1]
+    elif form == "n*e1;m*e1":
+        first = n * es[0]; res = m * es[0]; comb = [m]   # the same object scaled twice: the second result is checked
+    elif form == "-e1;reparam;e2-e1":
+        first = (-es[0], es[1] - es[0]); es[0].param = Ks[2]; res = es[1] - es[0]; comb = [-1, 1]; Ks = [Ks[2], Ks[1]]
     else: res = (n * es[0] + es[1]) - m * es[2]; comb = [n, 1, -m]
 except ValueError as e:
     res = None; err = e
@@ -102,7 +106,7 @@ if res is None:
 bad = []
 if list(res.net_stoich(keys)) != exp: bad.append("net stoichiometry %%s, expected %%s" %% (res.net_stoich(keys), exp))
 if any(v <= 0 for v in list(res.reac.values()) + list(res.prod.values())): bad.append("non-positive coefficient listed")
-if form not in ("e1*n", "-e1") and set(res.reac) & set(res.prod): bad.append("species on both sides: %%s" %% (set(res.reac) & set(res.prod)))
+if form not in ("e1*n", "-e1", "n*e1;m*e1") and set(res.reac) & set(res.prod): bad.append("species on both sides: %%s" %% (set(res.reac) & set(res.prod)))
 expK = sympy.prod([K ** c for K, c in zip(Ks, comb)])
 if sympy.simplify(res.param / expK) != 1: bad.append("constant %%s, expected %%s" %% (res.param, expK))
 print(res, res.param)
@@ -134,8 +138,15 @@ def task_arith(form, shape_sets):
             comb = [n]
         elif form == "-e1":
             comb = [-1]
+        elif form == "n*e1;m*e1":
+            comb = [m]
+        elif form == "-e1;reparam;e2-e1":
+            comb = [-1, 1]
         else:
             comb = [n, 1, -m]
+        kidx = list(range(len(comb)))  # index of the constant each combination coefficient refers to
+        if form == "-e1;reparam;e2-e1":
+            kidx = [2, 1]
 
         def fn():
             es = [Equilibrium(dict(r), dict(p), KVal({i: 1})) for i, (r, p) in enumerate(ops)]
@@ -147,6 +158,19 @@ def task_arith(form, shape_sets):
                 return es[0] * n
             if form == "-e1":
                 return -es[0]
+            if form == "n*e1;m*e1":
+                # history on ONE object: scaled by n, then by m (e.g. +2 then -2); the second result must not depend on the first request
+                try:
+                    n * es[0]
+                except ValueError:
+                    pass
+                return m * es[0]
+            if form == "-e1;reparam;e2-e1":
+                # history: negation and difference evaluated once, then the documented `e.param = ...` reassignment, then again
+                -es[0]
+                es[1] - es[0]
+                es[0].param = KVal({2: 1})
+                return es[1] - es[0]
             return (n * es[0] + es[1]) - m * es[2]
 
         nets = [net_of(op) for op in ops]
@@ -169,15 +193,15 @@ def task_arith(form, shape_sets):
                 conds.append(eq_term(got, exp[k] if not twin else exp[k] + 1))
             for v in list(r.reac.values()) + list(r.prod.values()):
                 conds.append(lift(v) > 0 if isinstance(v, SymNum) else z3.BoolVal(v > 0))
-            if form not in ("e1*n", "-e1") and set(r.reac) & set(r.prod):
+            if form not in ("e1*n", "-e1", "n*e1;m*e1") and set(r.reac) & set(r.prod):
                 return False
             if r.inact_reac or r.inact_prod:
                 return False
             if not isinstance(r.param, KVal):
                 return False
-            for i, c in enumerate(comb):
+            for i, c in zip(kidx, comb):
                 conds.append(eq_term(r.param.exps.get(i, 0), c))
-            if set(r.param.exps) - set(range(len(comb))):
+            if set(r.param.exps) - set(kidx):
                 return False
             return z3.And(*conds)
 
@@ -401,6 +425,8 @@ def tasks(tier, seed):
         ts.append(dict(id="C11.chain3.%02d" % i, fn="task_arith", kwargs=dict(form="(n*e1+e2)-m*e3", shape_sets=triples[i::4]), timeout=2400))
     ts.append(dict(id="C11.scale", fn="task_arith", kwargs=dict(form="e1*n", shape_sets=[[s] for s in names]), timeout=600))
     ts.append(dict(id="C11.neg", fn="task_arith", kwargs=dict(form="-e1", shape_sets=[[s] for s in names]), timeout=600))
+    ts.append(dict(id="C11.scale_twice", fn="task_arith", kwargs=dict(form="n*e1;m*e1", shape_sets=[[s_] for s_ in names]), timeout=900))
+    ts.append(dict(id="C11.reparam", fn="task_arith", kwargs=dict(form="-e1;reparam;e2-e1", shape_sets=pairs[:: (6 if tier == "quick" else 1)]), timeout=900))
     ts.append(dict(id="C11.eliminate_cancel", fn="task_eliminate", kwargs=dict(maxc=6 if tier == "quick" else 9), timeout=900))
     ts.append(dict(id="C11.as_reactions", fn="task_as_reactions", kwargs={}, timeout=120))
     ts.append(dict(id="C11.int_constant", fn="task_int_constant", kwargs={}, timeout=300))
